@@ -88,6 +88,11 @@ class Session:
                     self.p.dataReceived(pc)
         self.ev.append({"op": "reply", "tid": tid, "uid": uid, "fired": self._guard(go), "pieces": [len(x) for x in pieces]})
 
+    def raw(self, tid, uid, piece):
+        """a fragment of a frame with transaction id `tid` arrives (recorded as a reply event of that id: for an id nobody waits for,
+        a fragment and the whole frame are the same event to the model - nothing fires, nothing changes)"""
+        self.ev.append({"op": "reply", "tid": tid, "uid": uid, "fired": self._guard(lambda: self.p.dataReceived(piece)), "pieces": [len(piece)]})
+
     def replies_coalesced(self, items):
         """several replies arrive in one read (items = [(tid, uid)])"""
         kind = "tcp" if self.variant == "dict" else "rtu"
@@ -147,7 +152,22 @@ def history(tid, variant, rng, tier):
     issued = 0
     for _ in range(steps):
         c = rng.random()
-        if (c < 0.45 and issued < n) or not out and issued < n:
+        if variant == "dict" and not lost and issued < n and ((not out and c > 0.75) or c > 0.97):
+            # an unsolicited frame arrives in two segments with a request issued in between (so one of the two segments may arrive
+            # while nothing is outstanding): the byte stream must stay aligned and the later reply must still fire its request
+            cur = int(getattr(s.p.transaction, "tid", 0) or 0)
+            used = {v[0] for v in out.values()}
+            t = next(x for x in ((cur + 30000) % 65536, (cur + 30001) % 65536, (cur + 30002) % 65536) if x not in used)
+            fr = pyframe("tcp", t, 0, 1, bytes([3, 2, 0x12, 0x34]))
+            cut = rng.randint(1, len(fr) - 1)
+            s.raw(t, 1, fr[:cut])
+            uid = rng.choice([1, 2, 17])
+            d, t2 = s.execute(uid, rng.randint(0, 100))
+            issued += 1
+            if t2 != -1:
+                out[d] = (t2, uid)
+            s.raw(t, 1, fr[cut:])
+        elif (c < 0.45 and issued < n) or not out and issued < n:
             uid = rng.choice([1, 1, 2]) if variant == "fifo" else rng.choice([1, 2, 17])
             d, t = s.execute(uid, rng.randint(0, 100), retry_in_errback=(rng.random() < 0.25))
             issued += 1
